@@ -98,4 +98,34 @@ def runLaunch (l : LaunchScript) (oracle : Nat → Nat) (exeCodes : List Nat) : 
       | (ran2, false) => (ran.map LEv.lcmd ++ evs ++ ran2.map LEv.lcmd, 1)
       | (ran2, true)  => (ran.map LEv.lcmd ++ evs ++ ran2.map LEv.lcmd, firstNonZero codes)
 
+/-! ### the task environment section of the exec script (`_get_task_env`)
+
+The named environment is activated first (its script un-sets every variable of the agent's
+environment that the named environment does not have, and exports the named environment's own
+values); the variables of the task description are exported after it. -/
+
+inductive EnvAct where
+  | source (unsets : List Nat) (sets : List (Nat × Nat))    -- `. <named env script>`
+  | export (k v : Nat)                                      -- `export K="v"`
+deriving DecidableEq, Repr
+
+abbrev Env := List (Nat × Nat)
+
+def envSet (e : Env) (k v : Nat) : Env := (k, v) :: e.filter (fun x => x.1 ≠ k)
+def envUnset (e : Env) (k : Nat) : Env := e.filter (fun x => x.1 ≠ k)
+def envGet (e : Env) (k : Nat) : Option Nat := (e.find? (fun x => x.1 = k)).map (·.2)
+
+def applyAct (e : Env) : EnvAct → Env
+  | .source us ss => ss.foldl (fun e kv => envSet e kv.1 kv.2) (us.foldl envUnset e)
+  | .export k v   => envSet e k v
+
+/-- the section as a list of actions, in the order of the script -/
+def taskEnvActs (named : Option (List Nat × List (Nat × Nat))) (env : List (Nat × Nat)) : List EnvAct :=
+  (match named with
+   | some (us, ss) => [EnvAct.source us ss]
+   | none          => [])
+  ++ env.map (fun kv => EnvAct.export kv.1 kv.2)
+
+def runEnv (e : Env) (acts : List EnvAct) : Env := acts.foldl applyAct e
+
 end RPVerif.Script
